@@ -89,7 +89,9 @@ def runSearch (j : Json) : R (Json × Json) := do
       -- the value `"<ANY>"` stands for an object that compares equal to everything: it selects exactly the nodes that
       -- HAVE the attribute (every stored value is read as that token for this query)
       let attr : Tree Nat → String → Option String :=
-        if value == "\"<ANY>\"" then (fun n nm => (attr n nm).map (fun _ => value)) else attr
+        if value == "\"<ANY>\"" then (fun n nm => (attr n nm).map (fun _ => value))
+        else if value == "\"<NAN>\"" then (fun _ _ => none)     -- a value that does not equal itself selects nothing
+        else attr
       ms := ms.push (searchResJ labsJ (Search.findallByAttr attr value name m mn mx s))
       ss := ss.push (searchResJ labsJ
         (Spec.findallS (fun n => attr n name == some value) (fun _ => false) m mn mx s))
@@ -97,7 +99,9 @@ def runSearch (j : Json) : R (Json × Json) := do
       let name ← getStr q "name"
       let value := (← getField q "value").compress
       let attr : Tree Nat → String → Option String :=
-        if value == "\"<ANY>\"" then (fun n nm => (attr n nm).map (fun _ => value)) else attr
+        if value == "\"<ANY>\"" then (fun n nm => (attr n nm).map (fun _ => value))
+        else if value == "\"<NAN>\"" then (fun _ _ => none)     -- a value that does not equal itself selects nothing
+        else attr
       ms := ms.push (searchResJ optJ' (Search.findByAttr attr value name m s))
       ss := ss.push (searchResJ optJ' (Spec.findS (fun n => attr n name == some value) (fun _ => false) m s))
     | f => throw s!"unknown search fn {f}"
